@@ -575,3 +575,36 @@ fn vint_encode_and_decode_test() {
     check(-i64::MAX);
     check(i64::MIN)
 }
+
+/// Verification hooks (only with `--cfg scylla_verif`): pass-through to the crate-private
+/// vint / zig-zag codec.
+#[cfg(scylla_verif)]
+#[allow(missing_docs)]
+pub mod verif_vint {
+    pub fn unsigned_vint_encode(v: u64) -> Vec<u8> {
+        let mut buf = Vec::new();
+        super::unsigned_vint_encode(v, &mut buf);
+        buf
+    }
+
+    /// Ok((value, bytes consumed)) or Err(()) for the io::Error.
+    pub fn unsigned_vint_decode(mut buf: &[u8]) -> Result<(u64, usize), ()> {
+        let before = buf.len();
+        super::unsigned_vint_decode(&mut buf)
+            .map(|v| (v, before - buf.len()))
+            .map_err(|_| ())
+    }
+
+    pub fn vint_encode(v: i64) -> Vec<u8> {
+        let mut buf = Vec::new();
+        super::vint_encode(v, &mut buf);
+        buf
+    }
+
+    pub fn vint_decode(mut buf: &[u8]) -> Result<(i64, usize), ()> {
+        let before = buf.len();
+        super::vint_decode(&mut buf)
+            .map(|v| (v, before - buf.len()))
+            .map_err(|_| ())
+    }
+}
